@@ -111,6 +111,12 @@ Theorem C10_run_returns : forall c tr st r,
   exists ws, g_run st r = Some (ws, []) /\ forall w, In w ws -> g_ret st w = true.
 Proof. exact run_returned_all_finished. Qed.
 
+(* the wait() calls run() blocks on are exactly one per actor it was given (identity, not name) *)
+Theorem C10_run_waits_every_actor : forall c st t r actors aws st',
+  gstep c st t (GRunCall r actors aws) = Some st' ->
+  map fst aws = actors /\ g_run st' r = Some (map snd aws, map snd aws).
+Proof. exact run_waits_every_actor. Qed.
+
 (* ... and once they all have, run() is not blocked: it can resume and return *)
 Theorem C10_run_progress : forall c tr st r ws pend (t : Z),
   grun c g_init tr = Some st -> g_run st r = Some (ws, pend) -> g_runret st r = false ->
@@ -148,4 +154,5 @@ Print Assumptions C10_stop_cancels.
 Print Assumptions C10_stop.
 Print Assumptions C10_outcomes_stable.
 Print Assumptions C10_run_returns.
+Print Assumptions C10_run_waits_every_actor.
 Print Assumptions C10_run_progress.
